@@ -395,7 +395,9 @@ def rule_WM6(rep, prog):
     n = 0
     for fn in prog.all_functions():
         for i in fn.all_insts():
-            if i.op in ("store", "atomicrmw", "cmpxchg") and "dq_specific_head" in prog.fields(i) and "dispatch_queue_specific_head_s" not in (i.d["ptr"].get("sty") or ""):
+            # the slot is a union member: on a source / mach channel the same offset is ds_refs / dm_recv_refs; only queue-typed accesses count
+            if i.op in ("store", "atomicrmw", "cmpxchg") and "dq_specific_head" in prog.fields(i) and \
+                    (i.d["ptr"].get("sty") or "") in ("struct.dispatch_queue_s", "struct.dispatch_lane_s", "struct.dispatch_workloop_s"):
                 n += 1
                 rep.saw(fn)
                 if i.op == "cmpxchg":
